@@ -19,8 +19,10 @@ def classify(modname: str, name: str) -> str:
         return "absent"
     if v is getattr(bm, name):
         return "mock"
-    if (modname, name) in SESSION["user"] and v is SESSION["user"][modname, name]:
-        return "user"
+    if (modname, name) in SESSION["user"]:
+        kind, obj = SESSION["user"][modname, name]
+        if v is obj:
+            return kind
     return f"other:{type(v).__name__}"
 
 
